@@ -37,8 +37,12 @@ func (g *gen) c07start(w *world, pattern int, version int, polExtra int, prelude
 	case 2:
 		polB = 6
 	}
-	a := w.newParty(partyCfg{policies: polA | polExtra | 32, keyIdx: 0})
-	b := w.newParty(partyCfg{policies: polB | polExtra | 16, keyIdx: 1})
+	wsA, wsB := 32, 16
+	if pattern == 9 { // the whitespace start in the other direction: A sends the tag, B starts
+		wsA, wsB = 16, 32
+	}
+	a := w.newParty(partyCfg{policies: polA | polExtra | wsA, keyIdx: 0})
+	b := w.newParty(partyCfg{policies: polB | polExtra | wsB, keyIdx: 1})
 	l := &link{w: w, a: a, b: b}
 	establish := func() {
 		l.enqueue(b, []otr3.ValidMessage{w.query(b)})
@@ -85,6 +89,15 @@ func (g *gen) c07start(w *world, pattern int, version int, polExtra int, prelude
 		ts, _ := w.send(b, []byte("hello"))
 		l.enqueue(b, ts)
 		l.deliver(false)
+	case 9:
+		// pattern 6 with the roles exchanged: A sends a whitespace-tagged plaintext, B
+		// (whitespaceStartAKE) starts the exchange. In the link (and so in the schedule string, the
+		// final state and the abstract system) the starting side is the link's first party, as in 6.
+		ts, _ := w.send(a, []byte("hello"))
+		l.enqueue(a, ts)
+		l.deliver(true)
+		l.a, l.b = b, a
+		l.qab, l.qba = l.qba, l.qab
 	case 7:
 		l.enqueue(b, []otr3.ValidMessage{w.query(b), w.query(b)})
 	case 8:
@@ -113,6 +126,15 @@ func (g *gen) c07explore(w *world, pattern, version, polExtra, prelude int, budg
 			s.l.deliver(b)
 		}
 		canAB, canBA := len(s.l.qab) > 0, len(s.l.qba) > 0
+		// no choice while only one queue holds messages: go on in the same run
+		for canAB != canBA {
+			if len(prefix) >= 14 {
+				return
+			}
+			prefix = append(append([]bool{}, prefix...), canAB)
+			s.l.deliver(canAB)
+			canAB, canBA = len(s.l.qab) > 0, len(s.l.qba) > 0
+		}
 		if !canAB && !canBA {
 			*budget--
 			sched := ""
@@ -128,7 +150,11 @@ func (g *gen) c07explore(w *world, pattern, version, polExtra, prelude int, budg
 			}
 			d := s.describe()
 			// correspondence with the abstract model: it must predict this final state for one of the hash orders
-			g.out.emit(fmt.Sprintf("akeabs %d %s", pattern, sched), d)
+			abs := pattern
+			if pattern == 9 {
+				abs = 6
+			}
+			g.out.emit(fmt.Sprintf("akeabs %d %s", abs, sched), d)
 			olog.ok("C07")
 			g.dist[fmt.Sprintf("c07:pattern%d:%s", pattern, d)]++
 			sa, sb := otr3.VerifSnapshot(s.l.a.c), otr3.VerifSnapshot(s.l.b.c)
@@ -138,7 +164,7 @@ func (g *gen) c07explore(w *world, pattern, version, polExtra, prelude int, budg
 				if sa.AkeState == 2 && sb.AkeState == 2 {
 					key = "ake-collision-deadlock"
 				}
-				olog.viol("C07", key, fmt.Sprintf("start pattern %d (prelude %d), OTRv%d, schedule %s ends quiescent in %s", pattern, prelude, version, sched, d))
+				olog.viol("C07", key, fmt.Sprintf("start pattern %d (prelude %d), OTRv%d, schedule %s ends quiescent in %s [%s]", pattern, prelude, version, sched, d, c07what(pattern, prelude)))
 			}
 			return
 		}
@@ -150,6 +176,45 @@ func (g *gen) c07explore(w *world, pattern, version, polExtra, prelude int, budg
 		}
 	}
 	rec(nil)
+}
+
+// whitespace starts {pattern, prelude} after a previous session was ended: the side that sends the
+// tagged text must have ended its session (Send refuses in the finished state), the receiver is
+// finished (6 after 2, 9 after 1) or has ended it too
+var c07wsRestarts = [][2]int{{6, 2}, {9, 1}, {6, 3}, {9, 3}, {6, 4}, {9, 4}}
+
+// the concrete start, for violation reports
+func c07what(pattern, prelude int) string {
+	s := ""
+	switch prelude {
+	case 1:
+		s = "session established by B's query, A calls End(), B receives the disconnect (finished); then "
+	case 2:
+		s = "session established by B's query, B calls End(), A receives the disconnect (finished); then "
+	case 3:
+		s = "session established by B's query, A calls End(), B receives the disconnect and calls End(); then "
+	case 4:
+		s = "session established by B's query, B calls End(), A receives the disconnect and calls End(); then "
+	}
+	switch pattern {
+	case 1:
+		s += "A receives B's query"
+	case 2:
+		s += "B receives A's query"
+	case 6:
+		s += "B (SEND_WHITESPACE_TAG) calls Send(\"hello\") and A (WHITESPACE_START_AKE) receives the tagged plaintext; in the schedule > is A to B"
+	case 9:
+		s += "A (SEND_WHITESPACE_TAG) calls Send(\"hello\") and B (WHITESPACE_START_AKE) receives the tagged plaintext; in the schedule and the final state the two sides are exchanged (> is B to A)"
+	default:
+		s += fmt.Sprintf("start pattern %d", pattern)
+	}
+	switch c07mix {
+	case 1:
+		s += "; A allows v2 and v3"
+	case 2:
+		s += "; B allows v2 and v3"
+	}
+	return s
 }
 
 func init() {
@@ -168,6 +233,12 @@ func init() {
 					g.c07explore(w, pattern, version, 0, prelude, &budget)
 				}
 			}
+			// whitespace starts: in the other direction, and after the preludes (the tagged text reaches
+			// a side that is finished, or one that ended the session itself)
+			g.c07explore(w, 9, version, 0, 0, &budget)
+			for _, pp := range c07wsRestarts {
+				g.c07explore(w, pp[0], version, 0, pp[1], &budget)
+			}
 		}
 		// the two sides' policies differ but share a version: started by query (either side) and by
 		// whitespace tag
@@ -175,6 +246,9 @@ func init() {
 			for c07mix = 1; c07mix <= 2; c07mix++ {
 				for _, pattern := range []int{1, 2, 6} {
 					g.c07explore(w, pattern, version, 0, 0, &budget)
+				}
+				for _, pp := range c07wsRestarts {
+					g.c07explore(w, pp[0], version, 0, pp[1], &budget)
 				}
 			}
 		}
